@@ -239,9 +239,11 @@ int asm_create_bin_file(assemblyline_t al, const char *file_name) {
 
   FAIL_IF_MSG(write_ptr == NULL, "failed to create binary file")
 
-  fwrite(buffer, sizeof(uint8_t), len, write_ptr);
-
-  fclose(write_ptr);
+  // the file is only complete when every byte was written and flushed
+  size_t written = fwrite(buffer, sizeof(uint8_t), len, write_ptr);
+  int close_failed = fclose(write_ptr);
+  FAIL_IF_MSG(written != (size_t)len || close_failed,
+              "failed to write binary file\n")
 
   return EXIT_SUCCESS;
 }
